@@ -181,6 +181,13 @@ impl LayoutSpec {
             plan.extra_files.push(("blk.dat".into(), vec![1, 2, 3]));
             plan.extra_files.push(("blk00000.dat.bak".into(), vec![9; 50]));
             plan.extra_files.push(("xblk00000.dat".into(), vec![9; 50]));
+            // names that repeat the prefix / suffix around the number of an indexed file
+            for n in numbers.iter().take(3) {
+                plan.extra_files.push((format!("blk{:05}.dat.dat", n), vec![0x44; 600]));
+                plan.extra_files.push((format!("blkblk{:05}.dat", n), vec![0x45; 600]));
+                plan.extra_files.push((format!("blk{:05}.dat.tmp", n), vec![0x46; 60]));
+                plan.extra_files.push((format!("blk{:05}.DAT", n), vec![0x47; 60]));
+            }
         }
         if self.extras.dir_named_like_blk {
             plan.extra_dirs.push(blk_name(free(8888), 5));
@@ -263,6 +270,8 @@ pub fn xor_key() -> BS<Option<Vec<u8>>> {
         3 => Just(None),
         4 => vec(any::<u8>(), 8).prop_map(Some),
         1 => Just(Some(vec![0u8; 8])),
+        1 => (1usize..=24, vec(1u8..=255, 1..8)).prop_map(|(z, tail)| { let mut k = vec![0u8; z]; k.extend(tail); Some(k) }),
+        1 => (any::<u8>(), 1usize..=16).prop_map(|(b, n)| Some(vec![b; n])),
         2 => (1usize..=64).prop_flat_map(|n| vec(any::<u8>(), n)).prop_map(Some),
         1 => prop_oneof![Just(1usize), Just(3usize), Just(7usize), Just(13usize), Just(31usize), Just(64usize)].prop_flat_map(|n| vec(any::<u8>(), n)).prop_map(Some),
     ].boxed()
